@@ -68,8 +68,11 @@ class Emitter:
             json.dump([sp if i in keep else None for i, sp in enumerate(self.specs)], f)
         # first-run observables in the same canonical text form: recompute them HERE (same process, original order already ran)
         p = vlib.import_impl()
-        pr = subprocess.run([sys.executable, os.path.join(os.path.dirname(__file__), "evalspec.py"), path], capture_output=True, text=True,
-                            env=dict(os.environ), timeout=1800)
+        # the other interpreter also differs in what must not matter: assertions stripped (-O), another string-hash seed
+        env2 = dict(os.environ)
+        env2["PYTHONHASHSEED"] = "987"
+        pr = subprocess.run([sys.executable, "-O", os.path.join(os.path.dirname(__file__), "evalspec.py"), path], capture_output=True, text=True,
+                            env=env2, timeout=1800)
         if pr.returncode != 0:
             self.violation("order-independence harness failed", {}, pr.stderr[-500:])
             return
@@ -82,7 +85,7 @@ class Emitter:
             if there is None or [here[0], list(here[1])] != [there[0], list(there[1])]:
                 n += 1
                 if n <= 5:
-                    self.violation("the same call gives a different result in a fresh interpreter that made the calls in reverse order (state carried between calls)",
+                    self.violation("the same call gives a different result in a fresh interpreter that made the calls in reverse order, with assertions stripped (python -O) and another hash seed (state carried between calls, or dependence on the interpreter's mode)",
                                    self.meta_cases[i]["input"], {"case": self.meta_cases[i]["desc"]})
         self.count("order_check.cases", len(idx))
 
